@@ -59,10 +59,10 @@ func newCliWorld(r *Run, org origin, uri string, fate func(nr *netReq) *netFate)
 	tr := newSimTransport(r)
 	w.net = &cliNet{r: r, tr: tr, org: org, fateOf: fate}
 	w.c = &gohlslib.Client{
-		URI:        uri,
-		HTTPClient: &http.Client{Transport: tr},
-		OnRequest:  func(*http.Request) { w.cb() },
-		OnTracks:   w.onTracks,
+		URI:                       uri,
+		HTTPClient:                &http.Client{Transport: tr},
+		OnRequest:                 func(*http.Request) { w.cb() },
+		OnTracks:                  w.onTracks,
 		OnDownloadPrimaryPlaylist: func(u string) { w.cb(); r.Log("client", "%v primary %s", r.Now(), u) },
 		OnDownloadStreamPlaylist:  func(u string) { w.cb(); r.Log("client", "%v playlist %s", r.Now(), u) },
 		OnDownloadSegment:         func(u string) { w.cb(); r.Log("client", "%v segment %s", r.Now(), u) },
